@@ -108,6 +108,35 @@ fn boundary_actions() -> Vec<Action> {
     ]
 }
 
+/// a second, small default/-U alphabet explored one level deeper: surveillance-status values of the position
+/// squitter around identity replies, and surface reports whose pairs do and do not agree
+fn status_alphabet() -> Vec<Action> {
+    use crate::frames;
+    let a = rowmodel::ADDR[0];
+    let air = |ss: u32, odd: bool| {
+        let (la, lo) = crate::refmodel::cpr::encode(rowmodel::P1.0, rowmodel::P1.1, odd);
+        frames::df17(5, a, frames::me_airpos(11, ss, 0, frames::ac12_for_alt(36000), 0, odd as u32, la, lo))
+    };
+    let mut v = vec![
+        Action::line("A:TC11 even SS0", &air(0, false)),
+        Action::line("A:TC11 odd SS1 permanent alert", &air(1, true)),
+        Action::line("A:TC11 even SS2 temporary alert", &air(2, false)),
+        Action::line("A:TC11 odd SS3 SPI", &air(3, true)),
+        Action::line("A:DF5 5611", &frames::df5(a, frames::id13_for_squawk(5611))),
+        Action::line("A:DF5 7700", &frames::df5(a, frames::id13_for_squawk(7700))),
+        Action::line("A:surface even", &frames::df17(5, a, frames::me_surfpos(7, 1, 0, 0, 0, 0, 93006, 51380))),
+        Action::line("A:surface even elsewhere", &frames::df17(5, a, frames::me_surfpos(7, 1, 0, 0, 0, 0, 30011, 51380))),
+    ];
+    for yz in [90000u32, 20000, 60000, 110000, 5000, 125000] {
+        v.push(Action::line(&format!("A:surface odd lat-bits {yz}"), &frames::df17(5, a, frames::me_surfpos(7, 1, 0, 0, 0, 1, yz, 49000))));
+    }
+    v
+}
+
+fn alphabet_named(name: &str) -> Vec<Action> {
+    if name == "status" { status_alphabet() } else { u_alphabet() }
+}
+
 fn u_alphabet() -> Vec<Action> {
     let mut v = u_alphabet_base();
     v.extend(boundary_actions());
@@ -149,10 +178,10 @@ fn run_presentation(ctx: &mut Ctx, base: &[&str], depth: usize) {
     ctx.bound(&format!("presentation pairs, base [{}]", cbase.label()), format!("depth {depth}, {} actions x {} variants", actions.len(), vars.len()));
 }
 
-fn run_u_pair(ctx: &mut Ctx, depth: usize) {
+fn run_u_pair(ctx: &mut Ctx, depth: usize, alphabet: &str) {
     let cd = Cfg::new(&[]);
     let cu = Cfg::new(&["-U"]);
-    let actions = u_alphabet();
+    let actions = alphabet_named(alphabet);
     let model = Model { cfg: &cd, actions: &actions, depth, init: vec![], aux0: Vec::<Snap>::new() };
     squitterator::set_observer_coords_from_str(rowmodel::OBSERVER_STR);
     explore(ctx, &model, |aux, _pre, a, _post| apply(&cu, aux, a).1, |ctx, st| {
@@ -170,11 +199,11 @@ fn run_u_pair(ctx: &mut Ctx, depth: usize) {
                 "C19/U-pair",
                 &names.join(" > "),
                 || format!("after [{}]: {}", names.join(" > "), d.join(" | ")),
-                || json!({"kind": "upair", "path": path, "depth": depth}),
+                || json!({"kind": "upair", "alphabet": alphabet, "path": path, "depth": depth}),
             );
         }
     });
-    ctx.bound("default vs -U", format!("depth {depth}, {} actions", actions.len()));
+    ctx.bound(&format!("default vs -U ({alphabet} alphabet)"), format!("depth {depth}, {} actions", actions.len()));
 }
 
 const RECORDINGS: [&str; 5] = ["squitters.txt", "sbs2.txt", "raw2.txt", "sbs1.txt", "df24.txt"];
@@ -338,7 +367,8 @@ fn run(ctx: &mut Ctx) {
     for base in [&[][..], &["-U"][..], &["-R"][..]] {
         run_presentation(ctx, base, if thorough { 3 } else { 2 });
     }
-    run_u_pair(ctx, if thorough { 4 } else { 3 });
+    run_u_pair(ctx, if thorough { 4 } else { 3 }, "row");
+    run_u_pair(ctx, if thorough { 5 } else { 4 }, "status");
     let mut job = 0u64;
     run_sweep_family(ctx, &mut job);
     run_recordings(ctx, &mut job);
@@ -361,7 +391,7 @@ fn replay(ctx: &mut Ctx, case: &Value) {
         Some("upair") => {
             let cd = Cfg::new(&[]);
             let cu = Cfg::new(&["-U"]);
-            let actions = u_alphabet();
+            let actions = alphabet_named(case.get("alphabet").and_then(|x| x.as_str()).unwrap_or("row"));
             let model = Model { cfg: &cd, actions: &actions, depth, init: vec![], aux0: Vec::<Snap>::new() };
             squitterator::set_observer_coords_from_str(rowmodel::OBSERVER_STR);
             replay_path(ctx, &model, &path, |aux, _pre, a, _post| apply(&cu, aux, a).1, |ctx, st| {
